@@ -5,6 +5,7 @@ import (
 	"go/token"
 	"go/types"
 	"sort"
+	"sync"
 	"strings"
 
 	"golang.org/x/tools/go/ssa"
@@ -20,7 +21,16 @@ type lockUse struct {
 	path string // field path from the receiver to the mutex
 }
 
+var lockSumMu sync.Mutex
+
+// lockSummary is called from the per-function VC builders, which run concurrently.
 func (e *Engine) lockSummary(f *ssa.Function) []string {
+	lockSumMu.Lock()
+	defer lockSumMu.Unlock()
+	return e.lockSummaryLocked(f)
+}
+
+func (e *Engine) lockSummaryLocked(f *ssa.Function) []string {
 	if e.lockSums == nil {
 		e.lockSums = map[*ssa.Function][]string{}
 	}
@@ -60,7 +70,7 @@ func (e *Engine) lockSummary(f *ssa.Function) []string {
 					if fc := e.contractOf(callee); fc != nil && fc.Inline {
 						continue
 					}
-					for _, p := range e.lockSummary(callee) {
+					for _, p := range e.lockSummaryLocked(callee) {
 						set[p] = true
 					}
 				}
